@@ -90,7 +90,7 @@ const HOSTILE: &[&str] = &[
     "0", "5", "1883", "9223372036854775807", "007", "00", "0123", "+5", "-5", "-0", "99999999999999999999", "1.5", "0.25", "10.0", "1.50",
     "01.5", "1.0e3", "1e5", "1E5", "1.5e3", "2e-3", "1.", ".5", "-1.5", "+2.5", "inf", "nan", "NaN", "infinity", "Infinity", "-inf", "+inf", "-nan",
     // quotes / backslashes
-    "say \"hi\"", "\"", "a\"b", "\"quoted\"", "x\") stream Evil = Tick", "a\") # ", "a\")\n# ", "back\\slash", "C:\\dir\\file", "\\n", "a\\\\b", "tail\\", "\\", "a\\\"b",
+    "say \"hi\"", "\"", "a\"b", "\"quoted\"", "x\") stream Evil = Tick", "a\") # ", "a\")\n# ", "a\")Z#", "back\\slash", "C:\\dir\\file", "\\n", "a\\\\b", "tail\\", "\\", "a\\\"b",
     // newlines / whitespace / empty
     "", " ", " padded ", "two\nlines", "cr\r\nlf", "\ttab",
     // unicode
@@ -351,15 +351,16 @@ fn check(src: &Src, conns: &[Conn]) -> Checked {
         base_js.pop();
     }
     let got_js = stmts_json(&prog);
-    let mut lead = 0usize;
+    // the declaration of an injected connector = the first ConnectorDecl with its name (injected
+    // names are not declared in the original source); everything else is "the rest"
     let mut declared: BTreeSet<String> = BTreeSet::new();
-    for s in &prog.statements {
+    let mut rest: Vec<&J> = vec![];
+    for (i, s) in prog.statements.iter().enumerate() {
         match &s.node {
-            Stmt::ConnectorDecl { name, .. } if lead < injected.len() && injected.iter().any(|c| &c.name == name) && !declared.contains(name) => {
+            Stmt::ConnectorDecl { name, .. } if injected.iter().any(|c| &c.name == name) && !declared.contains(name) => {
                 declared.insert(name.clone());
-                lead += 1;
             }
-            _ => break,
+            _ => rest.push(&got_js[i]),
         }
     }
     for c in &injected {
@@ -367,7 +368,7 @@ fn check(src: &Src, conns: &[Conn]) -> Checked {
             findings.push(Finding::DeclMissing(c.name.clone()));
         }
     }
-    if got_js[lead..] != base_js[..] {
+    if rest.len() != base_js.len() || rest.iter().zip(base_js.iter()).any(|(a, b)| *a != b) {
         findings.push(Finding::RestChanged);
     }
     // (3) engine view
@@ -560,7 +561,7 @@ fn main() {
         let _ = std::env::set_current_dir(d.path());
     }
     let threads = ncpu();
-    let n_cases = args.pick(1600usize, 100_000usize) / threads + 1;
+    let n_cases = args.pick(1600usize, 30_000usize) / threads + 1;
     let parts = parallel(threads, args.seed, move |ti, mut rng| {
         let mut out = Partial::default();
         let rt = vh::eng::rt();
